@@ -247,6 +247,107 @@ def h_minmax(ctx):
     ctx.vc("table of the object itself is not modified", and_(*[ctx.field(ip, "_x")[i] == xs[i] for i in range(4)]))
 
 
+# ---- the conjunction helpers: what is handed to Interpolation, and what is returned
+COORD = "pymeeus.Coordinates:"
+
+
+def _client_contracts():
+    from pyvc.interp import SObj
+
+    def c_new(it, cref, args, kwargs):
+        it.info.setdefault("tables", []).append((list(args[0]), list(args[1])))
+        return SObj("Interpolation", {"_x": list(args[0]), "_y": list(args[1]), "_table": [], "_tol": Num.of(1e-10),
+                                      "_idx": len(it.info["tables"]) - 1})
+
+    def c_root(it, fref, args, kwargs):
+        it.info.setdefault("root_calls", []).append((args[0].fields["_idx"], args[1:], kwargs))
+        r = it.fresh("root", "real")
+        it.info["root"] = r
+        return r
+
+    def c_call(it, fref, args, kwargs):
+        it.info.setdefault("eval_calls", []).append((args[0].fields["_idx"], args[1]))
+        v = it.fresh("value", "real")
+        it.info["value"] = v
+        return v
+    from contracts.c05 import contract_reduce_deg
+    return {IP: c_new, IP + ".root": c_root, IP + ".__call__": c_call, "pymeeus.Angle:Angle.reduce_deg": contract_reduce_deg}
+
+
+# (the two conjunction helpers fork three ways per entry on the +-180 reduction of the difference: 3 and 4 entries cover the odd
+# and the even case; the alignment helper does not fork and is taken up to 6)
+@P.harness("clients/conjunction-helpers", cases=[dict(fn=f, n=k) for f in ("planetary_conjunction", "planet_star_conjunction")
+                                                 for k in (3, 4)] + [dict(fn="planet_stars_in_line", n=k) for k in (3, 4, 5, 6)],
+           contracts=_client_contracts, functions=[COORD + f for f in ("planetary_conjunction", "planet_star_conjunction",
+                                                                       "planet_stars_in_line")], crosscheck=0, timeout=60)
+def h_clients(ctx, fn, n):
+    """each helper tabulates the coordinate difference (resp. the alignment expression of Meeus ch.19) of the first m entries
+    (m = n, or n - 1 when n is even) against the abscissae -(m-1)/2 .. (m-1)/2 -- so n = 0 is the middle entry used and the unit
+    is the tabular interval -- and returns root() of that table over the whole table (and the declination difference
+    interpolated at it); with root() under the contract proved above, that is the time at which the interpolated difference
+    vanishes"""
+    from pyvc.api import sin_, tan_, radians_
+    from pyvc.values import floor_
+    if ctx.native:
+        return
+
+    def angles(prefix, lo, hi):
+        out = []
+        for i in range(n):
+            v = ctx.real("%s%d" % (prefix, i), lo, hi)
+            a = ctx.obj("Angle")
+            ctx.setfield(a, "_deg", v)
+            ctx.setfield(a, "_tol", 1e-10)
+            out.append((a, v))
+        return out
+    A1, D1 = angles("a", 0, 360), angles("d", -90, 90)
+    m = n if n % 2 == 1 else n - 1
+    half = (m - 1) // 2
+    if fn == "planetary_conjunction":
+        A2, D2 = angles("b", 0, 360), angles("e", -90, 90)
+        out = ctx.call(COORD + fn, [x[0] for x in A1], [x[0] for x in D1], [x[0] for x in A2], [x[0] for x in D2])
+    elif fn == "planet_star_conjunction":
+        sa, sd = angles("s", 0, 360)[0], angles("t", -90, 90)[0]
+        A2, D2 = [sa] * n, [sd] * n
+        out = ctx.call(COORD + fn, [x[0] for x in A1], [x[0] for x in D1], sa[0], sd[0])
+    else:
+        s1a, s1d = angles("s", 0, 360)[0], angles("t", -89, 89)[0]
+        s2a, s2d = angles("u", 0, 360)[0], angles("v", -89, 89)[0]
+        out = ctx.call(COORD + fn, [x[0] for x in A1], [x[0] for x in D1], s1a[0], s1d[0], s2a[0], s2d[0])
+    tables = ctx.it.info["tables"]
+    xs, ys = tables[0]
+    ctx.vc("an odd number m of entries is used (the last one dropped when n is even)", len(xs) == m and len(ys) == m)
+    if len(xs) != m:
+        return
+    ctx.vc("abscissae are -(m-1)/2 .. (m-1)/2: n = 0 at the middle entry used, unit = tabular interval",
+           and_(*[Num.of(xs[i]) == i - half for i in range(m)]))
+    if fn == "planet_stars_in_line":
+        for i in range(m):
+            a1, d1 = radians_(A1[i][1]), radians_(D1[i][1])
+            a2, d2, a3, d3 = radians_(s1a[1]), radians_(s1d[1]), radians_(s2a[1]), radians_(s2d[1])
+            spec = tan_(d1) * sin_(a2 - a3) + tan_(d2) * sin_(a3 - a1) + tan_(d3) * sin_(a1 - a2)
+            ctx.vc("ordinate %d is tan d1 sin(a2 - a3) + tan d2 sin(a3 - a1) + tan d3 sin(a1 - a2) for entry %d" % (i, i),
+                   Num.of(ys[i]) == spec)
+        ctx.vc("the returned value is root() of that table over the whole table",
+               and_(Num.of(out) == ctx.it.info["root"], ctx.it.info["root_calls"][-1][0] == 0,
+                    len(ctx.it.info["root_calls"][-1][1]) == 0 and not ctx.it.info["root_calls"][-1][2]))
+        return
+    for i in range(m):
+        t = (Num.of(ys[i].fields["_deg"]) - (A1[i][1] - A2[i][1])) / 360
+        ctx.vc("ordinate %d is the right ascension difference of entry %d (mod 360)" % (i, i), t == floor_(t))
+        yv = Num.of(ys[i].fields["_deg"])
+        ctx.vc("ordinate %d lies in [-180, 180] (continuous when a right ascension goes through 0h)" % i, and_(yv >= -180, yv <= 180))
+    xs2, ys2 = tables[1]
+    ctx.vc("the declination table uses the same abscissae", and_(len(xs2) == m, *[Num.of(xs2[i]) == i - half for i in range(min(m, len(xs2)))]))
+    for i in range(min(m, len(ys2))):
+        t = (Num.of(ys2[i].fields["_deg"]) - (D1[i][1] - D2[i][1])) / 360
+        ctx.vc("declination ordinate %d is the declination difference of entry %d (mod 360)" % (i, i), t == floor_(t))
+    rc, ec = ctx.it.info["root_calls"][-1], ctx.it.info["eval_calls"][-1]
+    ctx.vc("returns (root() of the right-ascension table over the whole table, declination table interpolated at it)",
+           and_(Num.of(out[0]) == ctx.it.info["root"], rc[0] == 0, len(rc[1]) == 0 and not rc[2],
+                ec[0] == 1, Num.of(ec[1]) == ctx.it.info["root"], Num.of(out[1]) == ctx.it.info["value"]))
+
+
 # ---- bounded: binary64, n up to 9, smooth data, several roots, reversed and out-of-table limits, minmax, clients
 @P.bounded_check("float/tables", grid="tables of 2..9 points, equally and unequally spaced, shuffled; polynomial and smooth "
                  "(sin, exp) data; every sub-interval between consecutive sign changes / nodes; reversed and "
@@ -332,9 +433,74 @@ def b_tables(rng, tier):
         except Exception as ex:
             ok, det = False, repr(ex)
         yield ((n, tuple(X[:4]), deg), ok, det)
-    # smooth non-polynomial data and the conjunction helper
+    # the conjunction helpers on uniformly moving bodies (the interpolated difference is then linear: its zero is known)
     from pymeeus.Angle import Angle
-    from pymeeus.Coordinates import planetary_conjunction
+    from pymeeus.Coordinates import planetary_conjunction, planet_star_conjunction
+    for t in range(300 if tier == "thorough" else 40):
+        n = rng.choice((3, 4, 5, 6, 7))
+        m = n if n % 2 else n - 1
+        t0 = rng.uniform(-(m - 1) / 2.0, (m - 1) / 2.0)           # the conjunction, in tabular intervals from the middle entry used
+        v = rng.choice((-1, 1)) * rng.uniform(0.2, 1.5)
+        ra_s, de_s = rng.uniform(0, 360), rng.uniform(-60, 60)
+        w = rng.uniform(-0.3, 0.3)
+        de0 = de_s + rng.uniform(-2, 2)
+        al = [Angle((ra_s + v * (i - (m - 1) / 2.0 - t0)) % 360.0) for i in range(n)]
+        dl = [Angle(de0 + w * (i - (m - 1) / 2.0)) for i in range(n)]
+        ok, det = True, None
+        try:
+            n0, dd = planet_star_conjunction(al, dl, Angle(ra_s), Angle(de_s))
+            if abs(n0 - t0) > 1e-8 or abs(dd() - (de0 + w * t0 - de_s)) > 1e-8:
+                ok, det = False, ("planet_star_conjunction", n, n0, t0, dd())
+            n1, dd1 = planetary_conjunction(al, dl, [Angle(ra_s)] * n, [Angle(de_s)] * n)
+            if abs(n1 - t0) > 1e-8:
+                ok, det = False, ("planetary_conjunction", n, n1, t0)
+        except Exception as ex:
+            ok, det = False, repr(ex)
+        yield (("conjunction-helper", n, round(t0, 4), round(v, 3), round(ra_s, 3)), ok, det)
+    # three bodies in line: the planet moves uniformly, the alignment expression is smooth; its interpolated zero is within
+    # 2e-3 tabular interval of the zero of the expression itself (located by bisection on the exact motion)
+    from pymeeus.Coordinates import planet_stars_in_line
+
+    def straight(a1, d1, a2, d2, a3, d3):
+        a1, d1, a2, d2, a3, d3 = (math.radians(v) for v in (a1, d1, a2, d2, a3, d3))
+        return math.tan(d1) * math.sin(a2 - a3) + math.tan(d2) * math.sin(a3 - a1) + math.tan(d3) * math.sin(a1 - a2)
+    for t in range(200 if tier == "thorough" else 30):
+        n = rng.choice((3, 4, 5, 6, 7))
+        m = n if n % 2 else n - 1
+        sa1, sd1 = rng.uniform(20, 340), rng.uniform(-40, 40)
+        sa2, sd2 = sa1 + rng.uniform(3, 8), sd1 + rng.uniform(-4, 4)
+        t0 = rng.uniform(-(m - 1) / 2.0 + 0.2, (m - 1) / 2.0 - 0.2)
+        # the planet crosses the line of the two stars at t0, between them or beyond, moving across it
+        lam = rng.uniform(-1.0, 2.0)
+        pa0, pd0 = sa1 + lam * (sa2 - sa1), sd1 + lam * (sd2 - sd1)
+        va, vd = rng.uniform(-0.3, 0.3), rng.choice((-1, 1)) * rng.uniform(0.2, 0.5)
+
+        def pos(x):
+            return pa0 + va * (x - t0), pd0 + vd * (x - t0)
+
+        def f(x):
+            a, d = pos(x)
+            return straight(a, d, sa1, sd1, sa2, sd2)
+        lo, hi = t0 - 0.15, t0 + 0.15
+        ok, det = True, None
+        try:
+            if f(lo) * f(hi) < 0:
+                for _ in range(60):
+                    mid = (lo + hi) / 2.0
+                    if f(lo) * f(mid) <= 0:
+                        hi = mid
+                    else:
+                        lo = mid
+                true0 = (lo + hi) / 2.0
+                al = [Angle(pos(i - (m - 1) / 2.0)[0]) for i in range(n)]
+                dl = [Angle(pos(i - (m - 1) / 2.0)[1]) for i in range(n)]
+                n0 = planet_stars_in_line(al, dl, Angle(sa1), Angle(sd1), Angle(sa2), Angle(sd2))
+                if abs(n0 - true0) > 2e-3:
+                    ok, det = False, ("planet_stars_in_line", n, n0, true0)
+        except Exception as ex:
+            ok, det = False, repr(ex)
+        yield (("stars-in-line", n, round(t0, 4), round(sa1, 3)), ok, det)
+    # smooth non-polynomial data
     for t in range(200 if tier == "thorough" else 20):
         x0 = rng.uniform(0, 3)
         xs = [x0 + 0.2 * i for i in range(5)]
